@@ -18,15 +18,52 @@ W_DIRS = ["/", "/ro", "/ro/rw", "/ro/rw/deep/ro2", "/wo", "/none", "/free"]
 W_NAMES = ["a.txt", "b.txt", "c.txt", "d.txt", "e.txt", "top.txt", "new.bin", "newdir"]
 
 
-def users():
+# a second table whose entries and names are not ASCII: each protected name has a canonically equivalent twin spelling
+# (composed / decomposed) that is a DIFFERENT name - to the permission table, to the backend and on the wire
+NFC_E, NFD_E = "priv\u00e9", "prive\u0301"
+NFC_N, NFD_N = "ma\u00f1ana", "man\u0303ana"
+U_PERMS = [("/", True, True), ("/" + NFC_E, False, False), ("/" + NFD_N, True, False), ("/open", True, True)]
+U_TREE = [
+    ((NFC_E,), None), ((NFC_E, "secret.txt"), b"secret"), ((NFC_E, "sub"), None), ((NFD_N,), None), ((NFD_N, "ro.txt"), b"ro"),
+    (("open",), None), (("open", "a.txt"), b"a"), (("\u212b.txt",), b"angstrom sign"),
+]
+U_ARGS = ["/" + NFC_E, "/" + NFD_E, "/" + NFC_E + "/secret.txt", "/" + NFD_E + "/secret.txt", "/" + NFD_E + "/sub", "/" + NFD_E + "/new.bin", NFD_E, NFD_E + "/secret.txt",
+          "/open/../" + NFD_E + "/secret.txt", "/" + NFC_N + "/ro.txt", "/" + NFD_N + "/ro.txt", "/" + NFC_N, "/" + NFC_N + "/new.bin", "/open/a.txt", "/\u00c5.txt", "/\u212b.txt",
+          "/A\u030a.txt", "/" + NFC_E.upper(), "/open/" + NFD_E]
+
+
+def users(perms=None):
     import world as W
 
-    return [W.UserSpec("bob", None, home="/", perms=W_PERMS)]
+    return [W.UserSpec("bob", None, home="/", perms=perms or W_PERMS)]
 
 
-def nearest(parts):
+def gen_unicode(ctx):
+    rng = ctx.rng
+    hist = []
+    for verb in ("MLST", "CWD", "DELE", "RMD", "MKD", "RNFR"):
+        for a in U_ARGS:
+            hist.append([verb + " " + a, "PWD"])
+    for a in U_ARGS:
+        hist.append(["RNFR " + a, "RNTO /open/moved"])
+        hist.append(["RNFR /open/a.txt", "RNTO " + a])
+        for v in ("RETR", "STOR", "APPE", "LIST", "MLSD"):
+            hist.append(["EPSV", "@data", v + " " + a])
+        hist.append(["CWD " + a, "EPSV", "@data", "RETR secret.txt", "DELE secret.txt", "MKD made", "CDUP", "PWD"])
+    for _ in range(ctx.pick(60, 800)):
+        seq = []
+        for _ in range(rng.randint(2, 6)):
+            v = rng.choice(["MKD", "RMD", "DELE", "RNFR", "RNTO", "STOR", "APPE", "RETR", "CWD", "MLST", "LIST", "MLSD"])
+            if v in ("STOR", "APPE", "RETR", "LIST", "MLSD"):
+                seq += ["EPSV", "@data"]
+            seq.append(v + " " + rng.choice(U_ARGS))
+        hist.append(seq)
+    return hist
+
+
+def nearest(parts, perms=None):
     best = None
-    for p, r, w in W_PERMS:
+    for p, r, w in perms or W_PERMS:
         pp = [x for x in p.split("/") if x]
         if parts[: len(pp)] == pp and (best is None or len(pp) > best[0]):
             best = (len(pp), r, w)
@@ -95,7 +132,7 @@ def cwd_of(snap):
     return "/" if parts == "~" else "/" + "/".join(F.dec_str(x) for x in parts.split("|"))
 
 
-def oracle(cmds, snaps):
+def oracle(cmds, snaps, perms=None):
     """`snaps[0]` is the state before `cmds[0]`"""
     prev = snaps[0]
     for c, snap in zip(cmds, snaps[1:]):
@@ -109,14 +146,18 @@ def oracle(cmds, snaps):
         # a moved / removed directory takes its descendants along: only the paths actually addressed count
         top = [k for k in changed if not any(k[:n] in changed for n in range(1, len(k)))]
         for k in top:
-            r, w = nearest(list(k))
+            r, w = nearest(list(k), perms)
             if not w:
                 return {"what": "%r changed /%s which lies under a non-writable permission entry (replies %s)" % (c, "/".join(k), snap["replies"]), "signature": "C04:wire:modified-under-non-writable"}
         verb, _, arg = c.partition(" ")
         codes = snap["replies"].split(",") if snap["replies"] != "~" else []
         ok = bool(codes) and all(x[0] in "123" for x in codes)
         target = walk(cwd_of(prev), arg if verb != "CDUP" else "..")
-        r, w = nearest(target)
+        r, w = nearest(target, perms)
+        if ok and verb in ("CWD", "LIST", "MLSD", "MLST", "RETR", "DELE", "RMD", "RNFR") and target and tuple(target) not in a:
+            # the permission looked up for this spelling is the permission of a path the tree does not hold: whatever
+            # was served or changed lies somewhere else
+            return {"what": "%r succeeded (%s) although the tree holds nothing at /%s" % (c, snap["replies"], "/".join(target)), "signature": "C04:wire:served-a-path-the-tree-does-not-hold"}
         if ok and verb in ("CWD", "CDUP", "LIST", "MLSD", "MLST", "RETR") and not r:
             return {"what": "%r succeeded (%s) on /%s whose nearest permission entry is not readable" % (c, snap["replies"], "/".join(target)), "signature": "C04:wire:read-allowed-under-non-readable"}
         if ok and verb in ("MKD", "RMD", "DELE", "RNFR", "RNTO", "STOR", "APPE") and not w:
@@ -142,22 +183,30 @@ def run(ctx, compare=True):
     from props import c05
 
     res = Result()
-    hist = gen(ctx)
-    us = users()
+    for tag, perms, tree, hist in (("ascii", W_PERMS, W_TREE, gen(ctx)), ("unicode", U_PERMS, U_TREE, gen_unicode(ctx))):
+        _run_universe(ctx, res, tag, perms, tree, hist, compare)
+    return res
+
+
+def _run_universe(ctx, res, tag, perms, tree, hist, compare):
+    from props import c05
+
+    W_TREE = tree  # noqa: N806 (the names below are those of the original single-table version)
+    us = users(perms)
     jobs = [(us, W_TREE, c05.to_events(["USER bob"] + cmds), "memory", None, socket.AF_INET) for cmds in hist]
     outs = S.run_many(jobs)
     all_lines, spans = [], []
     for cmds, snaps in zip(hist, outs):
         res.cases += 1
-        res.count("wire_histories")
+        res.count("wire_histories_" + tag)
         if isinstance(snaps, str):
             res.disagreements.append({"correspondence": "wire harness", "input": cmds, "impl": snaps})
             continue
         res.distinct.add(("wire", tuple(cmds)))
         # snaps: [connect, USER bob, cmds…]
-        f = oracle(cmds, snaps[1:]) if len(snaps) > 2 else None
+        f = oracle(cmds, snaps[1:], perms) if len(snaps) > 2 else None
         if f:
-            f["input"] = {"wire_commands": cmds}
+            f["input"] = {"wire_commands": cmds, "table": tag}
             res.oracle_failures.append(f)
         if compare:
             lines = S.model_lines(us, W_TREE, c05.to_events(["USER bob"] + cmds))
@@ -171,19 +220,19 @@ def run(ctx, compare=True):
             if diffs:
                 if len(res.disagreements) < 10:
                     i, k, a, b = diffs[0]
-                    res.disagreements.append({"correspondence": "Model.Session.step (permission guards) vs real dispatcher", "input": {"wire_commands": cmds}, "event": i, "field": k, "impl": a, "model": b})
+                    res.disagreements.append({"correspondence": "Model.Session.step (permission guards) vs real dispatcher", "input": {"wire_commands": cmds, "table": tag}, "event": i, "field": k, "impl": a, "model": b})
                 else:
                     res.count("more_disagreements")
-    return res
 
 
 def replay(inp):
     from props import c05
 
     cmds = inp["wire_commands"]
-    snaps = S.run_history(users(), W_TREE, c05.to_events(["USER bob"] + cmds))
+    perms, tree = (U_PERMS, U_TREE) if inp.get("table") == "unicode" else (W_PERMS, W_TREE)
+    snaps = S.run_history(users(perms), tree, c05.to_events(["USER bob"] + cmds))
     for c, s in zip(["@connect", "USER bob"] + cmds, snaps):
         print(repr(c), "->", s and (s["replies"], s["cwd"]))
-    f = oracle(cmds, snaps[1:])
+    f = oracle(cmds, snaps[1:], perms)
     print(f)
     return f is not None
